@@ -21,9 +21,9 @@ PID = 'C11'
 MODULES = ['GProofs.Geometry', 'GProofs.C11', 'GProofs.C11Gen']
 
 
-def gen_case(rng):
+def gen_case(rng, long_run=False):
     name, lat = gem.lattice_pool(rng)
-    T = int(rng.integers(2, 7))
+    T = int(rng.integers(2, 7)) if not long_run else int(rng.integers(1001, 1400))
     nLi = int(rng.integers(1, 4))
     others = [str(rng.choice(['O', 'S'])) for _ in range(int(rng.integers(1, 4)))]
     species = ['Li'] * nLi + sorted(others)
@@ -41,6 +41,8 @@ def gen_case(rng):
             'max_dist': float(rng.choice([2.0, 3.5, 5.0, 3.3, 4.0])),
             # read-only queries made between building the transitions and asking for the RDF (they switch the
             # internal representation of the queried trajectory object)
+            # the same element in two oxidation states (decorated Species): still ONE symbol for the RDF
+            'oxidation_states': bool(rng.random() < 0.3),
             'queries_before': [q for q in ('diff-displacements', 'full-displacements', 'diff-metrics') if rng.random() < 0.3]}
 
 
@@ -81,7 +83,12 @@ def check_case(out: Outcome, case, tag):
     out.evaluations += 1
     bins = np.arange(0, md + res, res)
     nb = len(bins)
-    traj = gem.make_traj(coords, lat, species)
+    if case.get('oxidation_states'):
+        from pymatgen.core import Species
+        ox = {'Li': (1, 1), 'O': (-2, -1), 'S': (-2, 4)}
+        traj = gem.make_traj(coords, lat, [Species(sym, ox[sym][k % 2]) for k, sym in enumerate(species)])
+    else:
+        traj = gem.make_traj(coords, lat, species)
     sites = gem.make_sites(lat, case['sites'], labels=labels)
     try:
         events = _calculate_transition_events(atom_sites=states, atom_inner_sites=states)
@@ -197,6 +204,9 @@ def run(tier: str, seed: int, scale: int) -> Outcome:
         check_case(out, case, 'corpus')
     for _ in range((150 if tier == 'quick' else 1500) * scale):
         check_case(out, gen_case(rng), 'random')
+    # runs of more than a thousand frames (every frame contributes, also the last ones)
+    for _ in range((1 if tier == 'quick' else 5) * scale):
+        check_case(out, gen_case(rng, long_run=True), 'long-run')
     return out
 
 
